@@ -21,10 +21,16 @@ def _replay(mod, path: str) -> int:
     rec = core.Rec(mod.ID)
     core.WATCH.install()
     w = core.unjson(doc["witness"])
-    if isinstance(w, dict) and "$interp" in w:
-        core.merge_child(rec, core.child("replay", mod.__name__, w["w"], w["$interp"]), w["$interp"])
-    else:
-        mod.replay(w, rec)
+    try:
+        if isinstance(w, dict) and "$interp" in w:
+            core.merge_child(rec, core.child("replay", mod.__name__, w["w"], w["$interp"]), w["$interp"])
+        else:
+            mod.replay(w, rec)
+    except core.AbortUnit:
+        print("replay stopped after 12 evaluations that did not terminate (violations recorded so far are reported)")
+    except core.Hang as e:
+        sig, detail = core.crash_sig(e)
+        rec.violation("terminates", sig, w, "replay did not terminate: " + detail, 10**6)
     want = doc.get("signature")
     rc = 0
     for key, v in sorted(rec.viol.items()):
